@@ -341,3 +341,43 @@ Definition memory_percent (memtype : bytes) (mi mfi : outcome (list Z)) (total :
     do value <- of_option AttributeError (nth_error metrics i);
     if 0 <? total then Val (value * 100, total) else Exc ValueError
   end.
+
+(* ------------------------------------------------ psutil/__init__.py: the cached total memory *)
+(* memory_percent up to the lookup of the denominator: name check, read, getattr *)
+Definition percent_value (memtype : bytes) (mi mfi : outcome (list Z)) : outcome Z :=
+  match index_of memtype pfullmem_fields with
+  | None => Exc ValueError
+  | Some i =>
+    do metrics <- (match index_of memtype pmem_fields with Some _ => mi | None => mfi end);
+    of_option AttributeError (nth_error metrics i)
+  end.
+
+(* virtual_memory(): ret = _psplatform.virtual_memory(); _TOTAL_PHYMEM = ret.total   (every call)
+   memory_percent: total_phymem = _TOTAL_PHYMEM or virtual_memory().total *)
+Inductive hop :=
+| HVM                      (* the caller runs psutil.virtual_memory() *)
+| HSet (total : Z)         (* the kernel's MemTotal changes (hotplug, balloon, cgroup view) *)
+| HPct (memtype : bytes).  (* the caller runs Process.memory_percent(memtype) *)
+
+Definition total_for_percent (cache : option Z) (kernel : Z) : Z * option Z :=
+  match cache with
+  | Some c => if c =? 0 then (kernel, Some kernel) else (c, cache)
+  | None => (kernel, Some kernel)
+  end.
+
+(* results of the memory_percent calls of a history; [cache] = _TOTAL_PHYMEM, [kernel] = MemTotal *)
+Fixpoint run_hist (mi mfi : outcome (list Z)) (cache : option Z) (kernel : Z) (ops : list hop)
+  : list (outcome (Z * Z)) :=
+  match ops with
+  | [] => []
+  | HVM :: r => run_hist mi mfi (Some kernel) kernel r
+  | HSet t :: r => run_hist mi mfi cache t r
+  | HPct n :: r =>
+    match percent_value n mi mfi with
+    | Val v =>
+      let '(t, cache') := total_for_percent cache kernel in
+      (if 0 <? t then Val (v * 100, t) else Exc ValueError) :: run_hist mi mfi cache' kernel r
+    | Exc e => Exc e :: run_hist mi mfi cache kernel r
+    | OutOfModel => OutOfModel :: run_hist mi mfi cache kernel r
+    end
+  end.
